@@ -84,6 +84,40 @@ def _build_extensions(src, dest_cache):
         shutil.rmtree(work, ignore_errors=True)
 
 
+_SCRATCH = []
+
+
+def cleanup():
+    """Remove the scratch copies this process created (also called before os._exit)."""
+    for owner, path in list(_SCRATCH):
+        if os.getpid() == owner:
+            shutil.rmtree(path, ignore_errors=True)
+            _SCRATCH.remove((owner, path))
+
+
+def _remove_stale():
+    """Scratch copies of processes that no longer exist (killed runs) are deleted."""
+    parent = _scratch_parent()
+    try:
+        names = os.listdir(parent)
+    except OSError:
+        return
+    for name in names:
+        if not name.startswith("cutadapt-verif-src-"):
+            continue
+        parts = name.split("-")
+        try:
+            pid = int(parts[3])
+        except (IndexError, ValueError):
+            continue
+        try:
+            os.kill(pid, 0)
+        except ProcessLookupError:
+            shutil.rmtree(os.path.join(parent, name), ignore_errors=True)
+        except PermissionError:
+            pass
+
+
 def prepare(src=None, quiet=False):
     """Return a directory to put first on sys.path; it contains package ``cutadapt``."""
     src = src or REPO_SRC
@@ -94,14 +128,11 @@ def prepare(src=None, quiet=False):
         if not quiet:
             print(f"[build] compiling Cython extensions from {src} (key {key})", flush=True)
         _build_extensions(src, cache)
-    scratch = tempfile.mkdtemp(prefix="cutadapt-verif-src-", dir=_scratch_parent())
+    _remove_stale()
     owner = os.getpid()
-
-    def _cleanup():
-        if os.getpid() == owner:
-            shutil.rmtree(scratch, ignore_errors=True)
-
-    atexit.register(_cleanup)
+    scratch = tempfile.mkdtemp(prefix=f"cutadapt-verif-src-{owner}-", dir=_scratch_parent())
+    _SCRATCH.append((owner, scratch))
+    atexit.register(cleanup)
     pkg = os.path.join(scratch, "cutadapt")
     os.mkdir(pkg)
     for name in os.listdir(src):
